@@ -2,7 +2,7 @@
     (Spec/StrftimeDoc.v), literal copying, concatenation, termination of the item iterator. *)
 From Coq Require Import ZArith List Bool Lia ZifyBool.
 From V Require Import Base.Int Base.IO Base.IntLemmas Base.Lift Spec.Gregorian Spec.StrftimeDoc
-  Model.Items Gen.Strftime Model.Strftime Model.Format.
+  Model.Items Gen.Strftime Gen.Locales Model.Strftime Model.Format.
 From V Require Model.Date Model.Time Model.DateTime.
 Import ListNotations.
 Open Scope Z_scope.
@@ -324,6 +324,7 @@ Proof.
   cbn [fa_date fa_time fa_off sv_dn sv_sod sv_nano sv_leap sv_off sv_utc sv_unix] in *.
   unfold render_num, num_value, format_numeric.
   cbn [fa_date fa_time fa_off sv_dn sv_sod sv_nano sv_leap sv_off sv_utc sv_unix].
+  destruct (width_documented f p) eqn:Ewd; cbn [negb]; [|exact I].
   destruct f; cbn [numeric_of num_width].
   (* date fields *)
   all: try (destruct ad as [d|], dn as [dn|]; try contradiction; [|cbn [claim]; reflexivity];
@@ -403,10 +404,284 @@ Proof.
                      /\ -86400 < (match off with Some o => o | None => 0 end) < 86400).
       { destruct ao as [[nm o]|], off as [o'|]; try contradiction; [|lia]. destruct Ho as (-> & Hr & _). lia. }
       destruct Hoff as [-> Hor]. rewrite chk_i64 by lia. cbv [bind].
-      subst u. unfold unix_secs, EPOCH_DN. replace ((dn - 719163) * 86400 + s - _) with
-        ((dn - 719163) * 86400 + s - match off with Some o => o | None => 0 end) by lia.
-      apply write_n_spec. lia.
+      subst u. unfold unix_secs, EPOCH_DN.
+      destruct p; try discriminate Ewd.
+      rewrite (write_n_spec 9 _ DNone false) by lia. reflexivity.
     + cbn [claim]. destruct Hu as [E|E]; subst.
       * destruct ad; [contradiction|]. reflexivity.
       * destruct at_; [contradiction|]. destruct ad; reflexivity.
+Qed.
+
+(** * render_item_spec, fixed items *)
+Definition month_names_ok (m : Z) : bool :=
+  fres_eqb (nth_name LOC_SHORT_MONTHS (as_usize (m - 1))) (firstn 3 (nth_bytes month_names (m - 1)))
+  && fres_eqb (nth_name LOC_LONG_MONTHS (as_usize (m - 1))) (nth_bytes month_names (m - 1)).
+Lemma month_names_sweep : forall_range month_names_ok 1 12 = true.
+Proof. vm_compute. reflexivity. Qed.
+Definition weekday_names_ok (wd : Z) : bool :=
+  fres_eqb (nth_name LOC_SHORT_WEEKDAYS (as_usize ((wd + 1) mod 7))) (firstn 3 (nth_bytes weekday_names wd))
+  && fres_eqb (nth_name LOC_LONG_WEEKDAYS (as_usize ((wd + 1) mod 7))) (nth_bytes weekday_names wd).
+Lemma weekday_names_sweep : forall_range weekday_names_ok 0 7 = true.
+Proof. vm_compute. reflexivity. Qed.
+
+(* offsets: symbolic in the sign and the absolute value *)
+Lemma pad2_small h : 0 <= h < 10 -> pad_num DZero 2 false h = [48; 48 + h].
+Proof.
+  intros H. unfold pad_num, digits, rep, dlen. rewrite Z.abs_eq by lia. rewrite two_digits by lia.
+  replace (h <? 0) with false by lia. replace (h <? 10) with true by lia. reflexivity.
+Qed.
+Definition off_sign (off : Z) : Z := if off <? 0 then 45 else 43.
+Lemma offset_format_abs_minutes colons sign a : 0 <= a < 86400 ->
+  offset_format_abs (mk_of OP_Minutes colons false PadZero) sign a =
+  fok ([sign] ++ pad_num DZero 2 false ((a + 30) / 60 / 60)
+       ++ (match colons with C_Colon => [58] | _ => [] end) ++ pad_num DZero 2 false ((a + 30) / 60 mod 60)).
+Proof.
+  intros Ha. unfold offset_format_abs. cbn [of_precision of_colons of_padding op_eqb andb].
+  unfold add_i32, div_i32, rem_i32. rewrite chk_i32 by lia. cbv [bind].
+  rewrite div_t_nz by lia.
+  replace (Z.quot (a + 30) 60) with ((a + 30) / 60) by lia.
+  set (mi := (a + 30) / 60). assert (Hmi : 0 <= mi <= 1440) by (unfold mi; lia).
+  rewrite chk_i32 by lia. cbv beta iota.
+  rewrite rem_t_nz by lia. replace (Z.quot mi 60) with (mi / 60) by lia.
+  replace (Z.rem mi 60) with (mi mod 60) by lia.
+  replace (in_i32 (mi / 60)) with true by (symmetry; unfold in_i32, in_range, i32_min, i32_max; lia).
+  cbv beta iota. rewrite div_t_nz by lia. replace (Z.quot mi 60) with (mi / 60) by lia.
+  rewrite chk_i32 by lia. cbv beta iota. rewrite !as_u8_small by lia.
+  destruct (mi / 60 <? 10) eqn:E.
+  - unfold add_u8. rewrite chk_in by (unfold in_u8, in_range, u8_max; lia).
+    cbv [bind fseq fok]. rewrite write_hundreds_spec by lia. cbv [bind fok fseq].
+    rewrite (pad2_small (mi / 60)) by lia. destruct colons; cbn [app]; rewrite ?app_nil_r; reflexivity.
+  - cbv [fseq bind]. rewrite !write_hundreds_spec by lia. cbv [bind fok fseq].
+    destruct colons; cbn [app]; rewrite ?app_nil_r; reflexivity.
+Qed.
+Lemma offset_format_abs_seconds sign a : 0 <= a < 86400 ->
+  offset_format_abs (mk_of OP_Seconds C_Colon false PadZero) sign a =
+  fok ([sign] ++ pad_num DZero 2 false (a / 3600) ++ [58] ++ pad_num DZero 2 false (a / 60 mod 60)
+       ++ [58] ++ pad_num DZero 2 false (a mod 60)).
+Proof.
+  intros Ha. unfold offset_format_abs. cbn [of_precision of_colons of_padding op_eqb andb negb].
+  unfold div_i32, rem_i32. cbv [bind].
+  rewrite div_t_nz by lia. replace (Z.quot a 60) with (a / 60) by lia.
+  set (mi := a / 60). assert (Hmi : 0 <= mi < 1440) by (unfold mi; lia).
+  rewrite chk_i32 by lia. cbv beta iota.
+  rewrite rem_t_nz by lia. replace (Z.quot a 60) with mi by (unfold mi; lia).
+  replace (in_i32 mi) with true by (symmetry; unfold in_i32, in_range, i32_min, i32_max; lia).
+  replace (Z.rem a 60) with (a mod 60) by lia. cbv beta iota.
+  rewrite rem_t_nz by lia. replace (Z.quot mi 60) with (mi / 60) by lia.
+  replace (Z.rem mi 60) with (mi mod 60) by lia.
+  replace (in_i32 (mi / 60)) with true by (symmetry; unfold in_i32, in_range, i32_min, i32_max; lia).
+  cbv beta iota. rewrite div_t_nz by lia. replace (Z.quot mi 60) with (mi / 60) by lia.
+  rewrite chk_i32 by lia. cbv beta iota. rewrite !as_u8_small by lia.
+  replace (a / 3600) with (mi / 60) by (unfold mi; lia).
+  destruct (mi / 60 <? 10) eqn:E.
+  - unfold add_u8. rewrite chk_in by (unfold in_u8, in_range, u8_max; lia).
+    cbv [bind fseq fok]. rewrite !write_hundreds_spec by lia. cbv [bind fok fseq].
+    rewrite (pad2_small (mi / 60)) by lia. cbn [app]. rewrite ?app_nil_r. reflexivity.
+  - cbv [fseq bind]. rewrite !write_hundreds_spec by lia. cbv [bind fok fseq].
+    cbn [app]. rewrite ?app_nil_r. reflexivity.
+Qed.
+Lemma offset_format_abs_hours sign a : 0 <= a < 86400 ->
+  offset_format_abs (mk_of OP_Hours C_None false PadZero) sign a =
+  fok ([sign] ++ pad_num DZero 2 false (a / 3600)).
+Proof.
+  intros Ha. unfold offset_format_abs. cbn [of_precision of_colons of_padding op_eqb andb negb].
+  unfold div_i32. cbv [bind].
+  rewrite div_t_nz by lia. replace (Z.quot a 3600) with (a / 3600) by lia.
+  rewrite chk_i32 by lia. cbv beta iota. rewrite !as_u8_small by lia.
+  destruct (a / 3600 <? 10) eqn:E.
+  - unfold add_u8. rewrite chk_in by (unfold in_u8, in_range, u8_max; lia).
+    cbv [bind fseq fok]. rewrite (pad2_small (a / 3600)) by lia. cbn [app]. reflexivity.
+  - cbv [fseq bind]. rewrite !write_hundreds_spec by lia. cbv [bind fok fseq].
+    cbn [app]. rewrite ?app_nil_r. reflexivity.
+Qed.
+
+Lemma offset_format_sign f off : -86400 < off < 86400 -> of_allow_zulu f = false ->
+  offset_format f off = offset_format_abs f (off_sign off) (Z.abs off).
+Proof.
+  intros Ho Hz. unfold offset_format, off_sign. rewrite Hz. cbn [andb].
+  destruct (off <? 0) eqn:E.
+  - unfold neg_i32. rewrite chk_i32 by lia. cbv [bind]. rewrite Z.abs_neq by lia. reflexivity.
+  - cbv [bind]. rewrite Z.abs_eq by lia. reflexivity.
+Qed.
+
+Lemma offset_text_unfold off colon mode :
+  offset_text off colon mode =
+  let a := Z.abs off in
+  let sep := if colon then [58] else [] in
+  [off_sign off] ++
+  (if mode =? 0 then pad_num DZero 2 false ((a + 30) / 60 / 60) ++ sep ++ pad_num DZero 2 false ((a + 30) / 60 mod 60)
+   else if mode =? 1 then pad_num DZero 2 false (a / 3600) ++ sep ++ pad_num DZero 2 false (a / 60 mod 60)
+                          ++ sep ++ pad_num DZero 2 false (a mod 60)
+   else pad_num DZero 2 false (a / 3600)).
+Proof.
+  unfold offset_text, off_sign. cbv zeta.
+  destruct (mode =? 0); [|destruct (mode =? 1)]; destruct (off <? 0); reflexivity.
+Qed.
+
+Theorem offset_items_spec off : -86400 < off < 86400 ->
+  offset_format (mk_of OP_Minutes C_Maybe false PadZero) off = fok (offset_text off false 0) /\
+  offset_format (mk_of OP_Minutes C_Colon false PadZero) off = fok (offset_text off true 0) /\
+  offset_format (mk_of OP_Seconds C_Colon false PadZero) off = fok (offset_text off true 1) /\
+  offset_format (mk_of OP_Hours C_None false PadZero) off = fok (offset_text off false 2).
+Proof.
+  intros Ho. assert (Ha : 0 <= Z.abs off < 86400) by lia.
+  rewrite !offset_format_sign by (try exact Ho; reflexivity).
+  rewrite !offset_text_unfold. cbv zeta. cbn [Z.eqb].
+  rewrite !offset_format_abs_minutes, offset_format_abs_seconds, offset_format_abs_hours by exact Ha.
+  repeat split.
+Qed.
+
+(* Display for FixedOffset on whole-minute offsets *)
+Lemma fixed_offset_display_minutes off : -86400 < off < 86400 -> off mod 60 = 0 ->
+  fixed_offset_display off = Val (offset_text off true 0).
+Proof.
+  intros Ho Hm. rewrite offset_text_unfold. cbv zeta. cbn [Z.eqb].
+  unfold fixed_offset_display.
+  assert (E : (if off <? 0 then let* n := neg_i32 off in Val (45, n) else Val (43, off))
+              = Val (off_sign off, Z.abs off)).
+  { unfold off_sign. destruct (off <? 0) eqn:E.
+    - unfold neg_i32. rewrite chk_i32 by lia. cbv [bind]. rewrite Z.abs_neq by lia. reflexivity.
+    - rewrite Z.abs_eq by lia. reflexivity. }
+  rewrite E. cbv [bind]. set (a := Z.abs off). assert (Ha : 0 <= a < 86400 /\ a mod 60 = 0) by (unfold a; lia).
+  rewrite rem_euclid_pos by lia.
+  replace (in_i32 (a / 60)) with true by (symmetry; unfold in_i32, in_range, i32_min, i32_max; lia).
+  rewrite div_euclid_pos by lia. rewrite chk_i32 by lia.
+  rewrite rem_euclid_pos by lia.
+  replace (in_i32 (a / 60 / 60)) with true by (symmetry; unfold in_i32, in_range, i32_min, i32_max; lia).
+  rewrite div_euclid_pos by lia. rewrite chk_i32 by lia.
+  replace (a mod 60 =? 0) with true by lia. f_equal.
+  replace ((a + 30) / 60) with (a / 60) by lia.
+  assert (P : forall x, 0 <= x -> fmt_int false true 2 x = pad_num DZero 2 false x).
+  { intros x Hx. unfold fmt_int, pad_num, digits, rep, dlen, blen. replace (x <? 0) with false by lia.
+    cbn [List.length app]. f_equal. apply rep_eq. lia. }
+  rewrite !P by lia. reflexivity.
+Qed.
+
+Lemma fmt_int_pad x n : 0 <= x -> fmt_int false true n x = pad_num DZero n false x.
+Proof.
+  intros Hx. unfold fmt_int, pad_num, digits, rep, dlen, blen. replace (x <? 0) with false by lia.
+  cbn [List.length app]. f_equal. apply rep_eq. lia.
+Qed.
+
+Definition tfield_documented (f : tfield) : Prop :=
+  match f with TFrac k _ => k = 3 \/ k = 6 \/ k = 9 | _ => True end.
+
+Lemma frac_auto_spec n : 0 <= n < 1000000000 ->
+  (if n =? 0 then fok []
+   else if Z.rem n 1000000 =? 0 then fok (LOC_DECIMAL_POINT ++ fmt_int false true 3 (Z.quot n 1000000))
+   else if Z.rem n 1000 =? 0 then fok (LOC_DECIMAL_POINT ++ fmt_int false true 6 (Z.quot n 1000))
+   else fok (LOC_DECIMAL_POINT ++ fmt_int false true 9 n))
+  = fok (if n =? 0 then []
+         else if n mod 1000000 =? 0 then 46 :: frac_digits n 3
+         else if n mod 1000 =? 0 then 46 :: frac_digits n 6
+         else 46 :: frac_digits n 9).
+Proof.
+  intros Hn. unfold frac_digits, LOC_DECIMAL_POINT.
+  change (10 ^ (9 - 3)) with 1000000. change (10 ^ (9 - 6)) with 1000. change (10 ^ (9 - 9)) with 1.
+  replace (Z.rem n 1000000) with (n mod 1000000) by lia.
+  replace (Z.rem n 1000) with (n mod 1000) by lia.
+  replace (Z.quot n 1000000) with (n / 1000000) by lia.
+  replace (Z.quot n 1000) with (n / 1000) by lia.
+  rewrite Z.div_1_r. rewrite !fmt_int_pad by lia.
+  destruct (n =? 0); [reflexivity|]. destruct (_ =? 0); [reflexivity|]. destruct (_ =? 0); reflexivity.
+Qed.
+
+Theorem render_fixed_spec : forall a sv f, args_view a sv -> tfield_documented f ->
+  claim (render_fix sv f) (format_fixed a (fixed_of f)).
+Proof.
+  intros [ad at_ ao] [dn sod nano leap off utc unix] f [Hd Ht Ho Hu] Hdoc.
+  cbn [fa_date fa_time fa_off sv_dn sv_sod sv_nano sv_leap sv_off sv_utc sv_unix] in *.
+  unfold render_fix, format_fixed.
+  cbn [fa_date fa_time fa_off sv_dn sv_sod sv_nano sv_leap sv_off sv_utc sv_unix].
+  destruct f; cbn [fixed_of].
+  - (* MonthAbbr *)
+    destruct ad as [d|], dn as [dn|]; try contradiction; [|destruct at_, ao; cbn [claim]; reflexivity].
+    destruct Hd as [_ _ (yy & m & dd & Hymd & Hm & Hdd & Hmr & Hddr) _ _ _ _].
+    rewrite Hymd. cbn [claim]. unfold d_month0. rewrite Hm. cbv [bind]. unfold sub_u32. rewrite chk_u32 by lia.
+    cbv [bind]. apply fres_eqb_eq.
+    pose proof (forall_range_spec _ _ _ month_names_sweep m ltac:(lia)) as Hs.
+    unfold month_names_ok in Hs. apply andb_prop in Hs. exact (proj1 Hs).
+  - (* MonthFull *)
+    destruct ad as [d|], dn as [dn|]; try contradiction; [|destruct at_, ao; cbn [claim]; reflexivity].
+    destruct Hd as [_ _ (yy & m & dd & Hymd & Hm & Hdd & Hmr & Hddr) _ _ _ _].
+    rewrite Hymd. cbn [claim]. unfold d_month0. rewrite Hm. cbv [bind]. unfold sub_u32. rewrite chk_u32 by lia.
+    cbv [bind]. apply fres_eqb_eq.
+    pose proof (forall_range_spec _ _ _ month_names_sweep m ltac:(lia)) as Hs.
+    unfold month_names_ok in Hs. apply andb_prop in Hs. exact (proj2 Hs).
+  - (* WdayAbbr *)
+    destruct ad as [d|], dn as [dn|]; try contradiction; [|destruct at_, ao; cbn [claim]; reflexivity].
+    destruct Hd as [_ _ _ _ Hwd _ _]. cbn [claim]. rewrite Hwd. cbv [bind].
+    assert (Hwdr : 0 <= weekday_of_dn dn <= 6) by (unfold weekday_of_dn; lia).
+    unfold wd_num_days_from_sunday, WD_SUN. rewrite wd_days_since_spec by lia. cbv [bind].
+    replace ((weekday_of_dn dn - 6) mod 7) with ((weekday_of_dn dn + 1) mod 7) by lia.
+    apply fres_eqb_eq.
+    pose proof (forall_range_spec _ _ _ weekday_names_sweep (weekday_of_dn dn) ltac:(lia)) as Hs.
+    unfold weekday_names_ok in Hs. apply andb_prop in Hs. exact (proj1 Hs).
+  - (* WdayFull *)
+    destruct ad as [d|], dn as [dn|]; try contradiction; [|destruct at_, ao; cbn [claim]; reflexivity].
+    destruct Hd as [_ _ _ _ Hwd _ _]. cbn [claim]. rewrite Hwd. cbv [bind].
+    assert (Hwdr : 0 <= weekday_of_dn dn <= 6) by (unfold weekday_of_dn; lia).
+    unfold wd_num_days_from_sunday, WD_SUN. rewrite wd_days_since_spec by lia. cbv [bind].
+    replace ((weekday_of_dn dn - 6) mod 7) with ((weekday_of_dn dn + 1) mod 7) by lia.
+    apply fres_eqb_eq.
+    pose proof (forall_range_spec _ _ _ weekday_names_sweep (weekday_of_dn dn) ltac:(lia)) as Hs.
+    unfold weekday_names_ok in Hs. apply andb_prop in Hs. exact (proj2 Hs).
+  - (* AmPmLower *)
+    destruct at_ as [t|], sod as [s|]; try contradiction; [|destruct ad, ao; cbn [claim]; reflexivity].
+    destruct (time_fields _ _ _ _ Ht) as (Hh & _). destruct Ht as (_ & Hsr & _).
+    assert (E : fst (Time.hour12 t) = negb (s <? 43200)).
+    { unfold Time.hour12. rewrite Hh. cbn [fst]. lia. }
+    destruct ad; cbn [claim]; rewrite E; destruct (s <? 43200); reflexivity.
+  - (* AmPmUpper *)
+    destruct at_ as [t|], sod as [s|]; try contradiction; [|destruct ad, ao; cbn [claim]; reflexivity].
+    destruct (time_fields _ _ _ _ Ht) as (Hh & _). destruct Ht as (_ & Hsr & _).
+    assert (E : fst (Time.hour12 t) = negb (s <? 43200)).
+    { unfold Time.hour12. rewrite Hh. cbn [fst]. lia. }
+    destruct ad; cbn [claim]; rewrite E; destruct (s <? 43200); reflexivity.
+  - (* FracAuto *)
+    destruct at_ as [t|], sod as [s|]; try contradiction; [|destruct ad, ao; cbn [claim]; reflexivity].
+    destruct (time_fields _ _ _ _ Ht) as (_ & _ & _ & _ & Hrm). destruct Ht as (_ & _ & Hnr & _).
+    destruct ad; cbn [claim]; rewrite Hrm; apply frac_auto_spec; lia.
+  - (* Frac k dot *)
+    cbn [tfield_documented] in Hdoc.
+    destruct at_ as [t|], sod as [s|]; try contradiction;
+      [|destruct dot, (digits =? 3), (digits =? 6), ad, ao; cbn [claim]; reflexivity].
+    destruct Ht as (_ & _ & Hnr & Hf). unfold Time.nanosecond. rewrite Hf.
+    assert (E3 : Z.rem (Z.quot (nano + (if leap then 1000000000 else 0)) 1000000) 1000 = nano / 1000000)
+      by (destruct leap; lia).
+    assert (E6 : Z.rem (Z.quot (nano + (if leap then 1000000000 else 0)) 1000) 1000000 = nano / 1000)
+      by (destruct leap; lia).
+    assert (E9 : Z.rem (nano + (if leap then 1000000000 else 0)) 1000000000 = nano)
+      by (destruct leap; lia).
+    unfold frac_digits, LOC_DECIMAL_POINT.
+    destruct Hdoc as [-> | [-> | ->]]; cbn [Z.eqb Pos.eqb];
+      [change (10 ^ (9 - 3)) with 1000000 | change (10 ^ (9 - 6)) with 1000 | change (10 ^ (9 - 9)) with 1;
+                                                                                 rewrite Z.div_1_r];
+      destruct dot, ad; cbn [claim app]; rewrite ?E3, ?E6, ?E9, fmt_int_pad by lia; reflexivity.
+  - (* ZoneName *)
+    destruct ao as [[name o]|], off as [o'|]; try contradiction; [|destruct ad, at_; cbn [claim]; reflexivity].
+    destruct Ho as (-> & Hor & Hn).
+    destruct utc.
+    + destruct Hn as [-> _]. destruct ad, at_; cbn [claim]; reflexivity.
+    + destruct (o' mod 60 =? 0) eqn:E; [|exact I].
+      rewrite fixed_offset_display_minutes in Hn by lia. injection Hn as <-.
+      destruct ad, at_; cbn [claim]; reflexivity.
+  - (* Off *)
+    destruct ao as [[name o]|], off as [o'|]; try contradiction; [|destruct ad, at_; cbn [claim]; reflexivity].
+    destruct Ho as (-> & Hor & _). destruct (offset_items_spec o' Hor) as (H1 & H2 & H3 & H4).
+    destruct ad, at_; cbn [claim]; exact H1.
+  - (* OffColon *)
+    destruct ao as [[name o]|], off as [o'|]; try contradiction; [|destruct ad, at_; cbn [claim]; reflexivity].
+    destruct Ho as (-> & Hor & _). destruct (offset_items_spec o' Hor) as (H1 & H2 & H3 & H4).
+    destruct ad, at_; cbn [claim]; exact H2.
+  - (* OffColonSec *)
+    destruct ao as [[name o]|], off as [o'|]; try contradiction; [|destruct ad, at_; cbn [claim]; reflexivity].
+    destruct Ho as (-> & Hor & _). destruct (offset_items_spec o' Hor) as (H1 & H2 & H3 & H4).
+    destruct ad, at_; cbn [claim]; exact H3.
+  - (* OffHours *)
+    destruct ao as [[name o]|], off as [o'|]; try contradiction; [|destruct ad, at_; cbn [claim]; reflexivity].
+    destruct Ho as (-> & Hor & _). destruct (offset_items_spec o' Hor) as (H1 & H2 & H3 & H4).
+    destruct ad, at_; cbn [claim]; exact H4.
+  - exact I.
+  - exact I.
 Qed.
